@@ -1,7 +1,8 @@
 // feature unimock: True
+macro_rules! define_item { ($p:ident) => {
 #[::entrait::entrait(pub T)]
-fn f1<D>(deps: &D, a1: i32, _: i32) -> String {
-    let __args: String = String::new() + &::vt::js(&format!("{:?}", a1)) + "," + &::vt::js(&String::from("_"));
+fn f1<D>(deps: &D, $p: i32, a2: i32) -> String {
+    let __args: String = String::new() + &::vt::js(&format!("{:?}", $p)) + "," + &::vt::js(&format!("{:?}", a2));
     ::vt::emit("enter", &format!("\"f\":\"c000057::f1\",\"deps\":{},\"args\":[{}]", ::vt::js(&::vt::addr(deps)), __args));
     
     let __val = format!("c000057::f1({})", __args);
@@ -9,17 +10,20 @@ fn f1<D>(deps: &D, a1: i32, _: i32) -> String {
     __val
 }
 
+} }
+define_item!(a2);
+
 pub fn run() {
     { ::vt::emit("scenario", "\"case\":\"c000057\",\"sc\":1");
       let app = ::entrait::Impl::new(crate::App { id: 1 });
-      ::vt::emit("call", &format!("\"m\":\"f1\",\"recv\":{},\"args\":[\"-46\",\"_\"]", ::vt::js(&::vt::addr(&app))));
+      ::vt::emit("call", &format!("\"m\":\"f1\",\"recv\":{},\"args\":[\"-46\",\"276\"]", ::vt::js(&::vt::addr(&app))));
       let r: String = f1(&app, -46, 276);
       ::vt::emit("ret", &format!("\"m\":\"f1\",\"val\":{}", ::vt::js(&r)));
       let __res = ::vt::js(&r);
       ::vt::emit("end", &format!("\"panicked\":false,\"result\":{}", __res)); }
     { ::vt::emit("scenario", "\"case\":\"c000057\",\"sc\":2");
       let app = ::entrait::Impl::new(crate::App { id: 2 });
-      ::vt::emit("call", &format!("\"m\":\"f1\",\"recv\":{},\"args\":[\"-46\",\"_\"]", ::vt::js(&::vt::addr(&app))));
+      ::vt::emit("call", &format!("\"m\":\"f1\",\"recv\":{},\"args\":[\"-46\",\"276\"]", ::vt::js(&::vt::addr(&app))));
       let r: String = T::f1(&app, -46, 276);
       ::vt::emit("ret", &format!("\"m\":\"f1\",\"val\":{}", ::vt::js(&r)));
       let __res = ::vt::js(&r);
